@@ -51,6 +51,9 @@ int main(int argc, char **argv) {
     const char *e2 = getenv("STUB_EXIT");
     return e2 ? atoi(e2) : 0;
   }
+  /* $STUB_DELAY_MS: wait that long before anything is written (a command that takes its time) */
+  const char *dl = getenv("STUB_DELAY_MS");
+  if (dl) usleep((useconds_t)atol(dl) * 1000);
   /* $STUB_ERR_LINES: that many diagnostic lines on stderr first (a command that complains a lot) */
   const char *el = getenv("STUB_ERR_LINES");
   if (el) {
